@@ -10,7 +10,7 @@ use crate::{
     Value, cowslice::CowSlice, empty_types::push_empty_rows_value, get_ops, val_as_arr,
 };
 
-use super::multi_output;
+use super::{multi_output, validate_size};
 
 pub fn split_by(f: SigNode, by_scalar: bool, keep_empty: bool, env: &mut Uiua) -> UiuaResult {
     let delim = env.pop(1)?;
@@ -148,7 +148,8 @@ pub fn partition(f: SigNode, env: &mut Uiua) -> UiuaResult {
         Value::partition_groups,
         |val, markers, _| Ok(val.partition_firsts(markers)),
         |val, markers, _| Ok(val.partition_lasts(markers)),
-        partition_lens,
+        |markers, _| Ok(partition_lens(markers)),
+        |_, _| Ok(()),
         "⊜ partition indices array must be a list of integers",
         env,
     )
@@ -548,9 +549,10 @@ pub fn group(f: SigNode, env: &mut Uiua) -> UiuaResult {
         Value::group_groups,
         Value::group_firsts,
         Value::group_lasts,
-        |indices| {
+        |indices, env| {
             let buckets = (indices.iter().max().copied().unwrap_or(-1) + 1).max(0) as usize;
-            let mut len_counts = HashMap::with_capacity(buckets);
+            validate_size::<f64>([buckets], env)?;
+            let mut len_counts = HashMap::with_capacity(buckets.min(indices.len()));
             for &index in indices {
                 if index >= 0 {
                     *len_counts.entry(index.unsigned_abs()).or_insert(0) += 1;
@@ -561,7 +563,12 @@ pub fn group(f: SigNode, env: &mut Uiua) -> UiuaResult {
             for (index, len) in len_counts {
                 slice[index] = len as f64;
             }
-            lens.into()
+            Ok(lens.into())
+        },
+        |indices, env| {
+            // There is a group for every index up to the largest one
+            let buckets = (indices.iter().max().copied().unwrap_or(-1) + 1).max(0) as usize;
+            validate_size::<Value>([buckets], env).map(drop)
         },
         "⊕ group indices array must be an array of integers",
         env,
@@ -755,7 +762,8 @@ fn collapse_groups<I, T: ScalarNum>(
     get_groups: impl Fn(Value, &Array<T>) -> I,
     firsts: impl Fn(Value, &[T], &Uiua) -> UiuaResult<Value>,
     lasts: impl Fn(Value, &[T], &Uiua) -> UiuaResult<Value>,
-    lens: impl Fn(&[T]) -> Array<f64>,
+    lens: impl Fn(&[T], &Uiua) -> UiuaResult<Array<f64>>,
+    validate_indices: impl Fn(&[T], &Uiua) -> UiuaResult,
     indices_error: &'static str,
     env: &mut Uiua,
 ) -> UiuaResult
@@ -815,12 +823,14 @@ where
                         indices.shape
                     )));
                 }
-                env.push(lens(&indices.data));
+                env.push(lens(&indices.data, env)?);
                 return Ok(());
             }
             _ => {}
         }
     }
+
+    validate_indices(&indices.data, env)?;
 
     let mut is_scalar = false;
     let mut group_count = 0;
